@@ -32,7 +32,8 @@ def run(unit, functions, repo, scratch, timeout=1800, deep=False):
         hf.write(open(src).read())
         hf.write("\n// appended by vx/bounded.py: the case being exercised, printed by the runner's panic hook\n"
                  "pub static VERIF_CASE: std::sync::Mutex<String> = std::sync::Mutex::new(String::new());\n"
-                 "#[allow(dead_code)]\npub fn verif_case(s: String) { if let Ok(mut g) = VERIF_CASE.lock() { *g = s; } }\n")
+                 "pub static VERIF_CASES: std::sync::atomic::AtomicUsize = std::sync::atomic::AtomicUsize::new(0);\n"
+                 "#[allow(dead_code)]\npub fn verif_case(s: String) { VERIF_CASES.fetch_add(1, std::sync::atomic::Ordering::Relaxed); if let Ok(mut g) = VERIF_CASE.lock() { *g = s; } }\n")
     host = None
     for line in open(src):
         if line.startswith("//! host:"):
@@ -71,7 +72,8 @@ def run(unit, functions, repo, scratch, timeout=1800, deep=False):
     open(os.path.join(runner, "src", "main.rs"), "w").write(
         'fn main() {\n    let only: Vec<String> = std::env::args().skip(1).collect();\n'
         '    std::panic::set_hook(Box::new(|info| { let c = slotted_egraphs::verif_bounded::VERIF_CASE.lock().map(|g| g.clone()).unwrap_or_default(); println!("PANICKED {} ||| case: {}", info.to_string().replace("\\n", " "), c); }));\n'
-        '    let f = slotted_egraphs::verif_bounded::run(&only);\n    for x in &f { println!("{}", x); }\n    println!("BOUNDED-DONE {}", f.len());\n}\n')
+        '    let f = slotted_egraphs::verif_bounded::run(&only);\n    for x in &f { println!("{}", x); }\n'
+        '    println!("BOUNDED-CASES {}", slotted_egraphs::verif_bounded::VERIF_CASES.load(std::sync::atomic::Ordering::Relaxed));\n    println!("BOUNDED-DONE {}", f.len());\n}\n')
     lock = os.path.join(repo, "Cargo.lock")
     if not os.path.exists(lock):
         lock = "/repo/Cargo.lock"
@@ -88,6 +90,7 @@ def run(unit, functions, repo, scratch, timeout=1800, deep=False):
     fails = []
     done = True
     note_parts = []
+    cases = {}
     try:
       for feat in variants:
         vcmd = cmd + (["--features", ",".join("slotted-egraphs/" + x for x in feat.split(","))] if feat else [])
@@ -107,6 +110,9 @@ def run(unit, functions, repo, scratch, timeout=1800, deep=False):
                 if line.startswith("FAIL "):
                     _, f2, clause, rest = line.split(" ", 3)
                     fails.append(dict(function=f2, clause=clause, input=rest + vnote))
+                if line.startswith("BOUNDED-CASES"):
+                    key = (fn or "*") + (" [features %s]" % feat if feat else "")
+                    cases[key] = int(line.split()[1])
                 if line.startswith("BOUNDED-DONE"):
                     fdone = True
             if not fdone:
@@ -121,7 +127,7 @@ def run(unit, functions, repo, scratch, timeout=1800, deep=False):
     finally:
         shutil.rmtree(os.path.join(root, "target"), ignore_errors=True)
     note = "; ".join(note_parts)
-    return dict(ran=done, failures=fails, note=note, cmd="(cd <scratch copy of /repo + contracts/bounded/%s.rs as crate::verif_bounded>/runner && cargo run --offline -- %s)" % (unit, " ".join(functions)), wall_s=round(time.time() - t0, 1))
+    return dict(ran=done, failures=fails, note=note, cases_run=cases, cmd="(cd <scratch copy of /repo + contracts/bounded/%s.rs as crate::verif_bounded>/runner && cargo run --offline -- %s)" % (unit, " ".join(functions)), wall_s=round(time.time() - t0, 1))
 
 
 if __name__ == "__main__":
